@@ -347,19 +347,24 @@ func (R *Repository) updateCrlEntry(entry *Entry, newChains *core.CertificateCha
 		return err
 	}
 	verifhook.Hit("repo.update.staged")
-	R.logger.Info("verify crl signature of crl " + entry.CRLLoader.GetDescription())
-	signatureCert, err := verifyCRLSignature(result, chains)
-	if err != nil {
-		R.setLastSignatureVerifyFailed(entry, result)
-		return err
-	} else {
-		R.resetLastSignatureVerifyFailed(entry)
-	}
-
-	verifhook.Hit("repo.update.verified")
-	err = processor.UpdateSignatureCertificate(signatureCert)
-	if err != nil {
-		return err
+	//apply the same signature validation mode as for the first load in loadCRL
+	if R.crlConfig.SignatureValidationModeParsed != config.SignatureValidationModeNone {
+		R.logger.Info("verify crl signature of crl " + entry.CRLLoader.GetDescription())
+		signatureCert, err := verifyCRLSignature(result, chains)
+		if err != nil {
+			R.setLastSignatureVerifyFailed(entry, result)
+			R.logger.Warn("could not validate signature of crl", zap.String("crl", entry.CRLLoader.GetDescription()))
+			if R.crlConfig.SignatureValidationModeParsed == config.SignatureValidationModeVerify {
+				return err
+			}
+		} else {
+			R.resetLastSignatureVerifyFailed(entry)
+			verifhook.Hit("repo.update.verified")
+			err = processor.UpdateSignatureCertificate(signatureCert)
+			if err != nil {
+				return err
+			}
+		}
 	}
 
 	verifhook.Hit("repo.update.before_swap")
